@@ -214,8 +214,8 @@ def cls_gaplength(rnd):
     """working-time gaps (gaplength) and maxgapduration, incl. gaps that run past the horizon"""
     m = gen.gen(rnd, subslot=False, ntasks=(2, 6), res_choices=(60, 30), weeks=(1, 3), alap=rnd.random() < 0.2, onstart=False)
     text = gen.render(m)
-    val = rnd.choice(["1h", "8h", "3d", "30d", "200d", "1w", "90min", "0h"])
-    kind = rnd.choice(["gaplength", "gaplength", "maxgapduration"])
+    val = rnd.choice(["1h", "8h", "3d", "30d", "200d", "1w", "90min", "0h", "9999999d", "100000y", "99999999h"])
+    kind = rnd.choice(["gaplength", "gaplength", "maxgapduration", "gapduration", "gapduration"])
     deps = list(re.finditer(r"depends ([^\n{]+?)(\n| \{)", text))
     if deps:
         d = rnd.choice(deps)
@@ -276,7 +276,57 @@ def cls_out_of_window(rnd):
             t["start"] = st + timedelta(days=rnd.choice([-3, 60, 700]))   # milestone pinned outside the window
         elif k < 0.5 and "effort_min" not in t:
             t["end"] = st + timedelta(days=rnd.choice([-3, 60, 700]))
-    return m, gen.render(m)
+        elif k < 0.6 and "effort_min" not in t:
+            # pins less than a slot / a few slots outside the window
+            if rnd.random() < 0.5:
+                t["start"] = st - timedelta(minutes=rnd.choice([1, 15, 30, 59, 90]))
+            else:
+                t["end"] = st + span + timedelta(minutes=rnd.choice([1, 30, 59, 61, 90]))
+                m["alap"] = True
+    text = gen.render(m)
+    if rnd.random() < 0.4:
+        # a milestone pinned a little outside the window (less than a slot, one or two slots)
+        off = rnd.choice([1, 15, 30, 59, 61, 90, 150])
+        if rnd.random() < 0.5:
+            text += 'task zpin "zpin" {\n  milestone\n  start %s\n}\n' % gen.d_full(st - timedelta(minutes=off))
+        else:
+            end_ = st + timedelta(days=m["days"]) if "days" in m else st + timedelta(weeks=m["weeks"])
+            text += 'task zpin "zpin" {\n  milestone\n  %s %s\n}\n' % (rnd.choice(["start", "scheduling alap\n  end"]), gen.d_full(end_ + timedelta(minutes=off)))
+    return m, text
+
+
+def cls_deep(rnd):
+    """deeply nested task trees and long dependency chains (recursion in the transformer, the builder, the roll-up)"""
+    n = rnd.choice([30, 120, 300, 700])
+    L = ['project p "P" 2025-03-03 +4w {', '  timezone "Etc/UTC"', "}", 'resource r "r" {}']
+    if rnd.random() < 0.6:
+        for i in range(n):
+            L.append("%stask n%d \"n%d\" {" % (" " * (i % 40), i, i))
+        L.append("effort 2h allocate r")
+        L.extend("}" for _ in range(n))
+    else:
+        for i in range(n):
+            L.append('task c%d "c%d" { effort 1h allocate r %s}' % (i, i, ("depends c%d " % (i - 1)) if i else ""))
+    return dict(res=60, giant=False), "\n".join(L) + "\n"
+
+
+def cls_multi_allocate(rnd):
+    """several allocate statements in one task body, with and without alternatives; the same resource named twice"""
+    m = gen.gen(rnd, subslot=False, ntasks=(2, 5), res_choices=(60, 30), weeks=(1, 3), nres=(3, 4), alts=True)
+    text = gen.render(m)
+    ids = [r["id"] for r in m["resources"]]
+    def more(mo):
+        k = rnd.random()
+        a, b = rnd.sample(ids, 2)
+        if k < 0.4:
+            extra = "allocate %s { alternative %s }\n  allocate %s" % (a, b, rnd.choice(ids))
+        elif k < 0.7:
+            extra = "allocate %s, %s\n  allocate %s { alternative %s }" % (a, a, b, a)
+        else:
+            extra = "allocate %s\n  allocate %s" % (a, b)
+        return mo.group(1) + extra
+    text = re.sub(r"(\n\s*)allocate [^\n]+", more, text, count=rnd.randint(1, 3))
+    return m, text
 
 
 def cls_grammar(rnd):
@@ -345,7 +395,7 @@ def cls_fixture(rnd):
     return dict(res=60, fixture=True), rnd.choice(_FIX)
 
 
-CLASSES = [("valid", cls_valid, 3), ("cycle", cls_cycle, 2), ("bounds-past-end", cls_bounds_past_end, 2), ("never-works", cls_never_works, 2), ("efforts", cls_efforts, 2),
+CLASSES = [("deep-nesting-long-chains", cls_deep, 1), ("multi-allocate", cls_multi_allocate, 1), ("valid", cls_valid, 3), ("cycle", cls_cycle, 2), ("bounds-past-end", cls_bounds_past_end, 2), ("never-works", cls_never_works, 2), ("efforts", cls_efforts, 2),
            ("unknown-empty-duration-resolution", cls_unknown_and_empty, 2), ("many-leaves", cls_many_leaves, 1), ("many-leave-lines", cls_leaves_many, 1),
            ("scenarios-group-limits", cls_scenarios_limits, 1), ("corrupted", cls_corrupted, 6), ("fixture", cls_fixture, 1),
            ("gaplength-maxgap", cls_gaplength, 2), ("macros", cls_macros, 2), ("out-of-window", cls_out_of_window, 3),
@@ -473,6 +523,10 @@ def run_one(name, m, text, acc, cs, job):
                     acc.violation("C11", "scheduled-start-after-end", dict(task=t.fullId, start=st, end=en), [], dict(rp, clause="scheduled-start-after-end"))
                 elif ps is not None and pe is not None and (st < ps or en > pe + timedelta(seconds=p.attributes.get("scheduleGranularity", 3600))):
                     pinned = t.provided("start", sc) or t.provided("end", sc)
+                    if pinned and not t.get("effort", sc) and (st < ps or en > pe):
+                        # a pinned zero-length task has no work that could run over: its date must lie inside [start, end]
+                        acc.violation("C11", "pinned-milestone-scheduled-outside-horizon", dict(task=t.fullId, start=st, end=en, pstart=ps, pend=pe), [],
+                                      dict(rp, clause="pinned-milestone-scheduled-outside-horizon"))
                     if not pinned:
                         acc.violation("C11", "scheduled-outside-horizon", dict(task=t.fullId, start=st, end=en, pstart=ps, pend=pe), [], dict(rp, clause="scheduled-outside-horizon"))
             else:
